@@ -29,8 +29,8 @@ theorem endByte_eq_digit {B : List Nat} (hB : BytesOk B) (S j : Nat) :
     rw [h0, Nat.div_eq_of_lt (by omega)]
 
 /-- Invariant D for the raw bits, and the complete decoder invariant. -/
-structure DecAll (B : List Nat) (S : Nat) (e : Enc) (d : Dec) : Prop where
-  rc : DecInv B S e d
+structure DecAll (B : List Nat) (S : Nat) (e : Enc) (d : Dec) (Bt : List Nat) : Prop where
+  rc : DecInv B S e d Bt
   err : d.error = 0
   nend : d.nendBits ≤ 32
   win : ∃ nb, d.endOffs = min nb S ∧ 8 * nb = rawN e + d.nendBits ∧
@@ -112,12 +112,12 @@ theorem rawC_value {B : List Nat} {S : Nat} {c c' : Enc} (ri : RawInv c) (hb : B
     Nat.div_eq_of_lt (rawQ_lt c ri hb), Nat.zero_add]
 
 /-- `ec_dec_bits` returns the next `n` raw bits and keeps the decoder invariant. -/
-theorem decBits_spec (B : List Nat) (hB : BytesOk B) (S : Nat) (e e' : Enc) (d : Dec) (v n : Nat)
-    (all : DecAll B S e d) (hn : n ≤ 25)
+theorem decBits_spec (B : List Nat) (hB : BytesOk B) (S : Nat) (e e' : Enc) (d : Dec) (v n : Nat) (Bt : List Nat)
+    (all : DecAll B S e d Bt) (hn : n ≤ 25)
     (hM : encM e' = encM e) (hL : encLow e' = encLow e) (hr : e'.rng = e.rng)
     (hnb : e'.nbitsTotal = e.nbitsTotal + n) (hN : rawN e' = rawN e + n)
     (hval : tailVal B S S / 2 ^ rawN e % 2 ^ n = v) :
-    (decBits d n).1 = v ∧ DecAll B S e' (decBits d n).2 := by
+    (decBits d n).1 = v ∧ DecAll B S e' (decBits d n).2 Bt := by
   obtain ⟨⟨ib, is, ir, inb, iv, io, irem⟩, derr, dn, nb, w1, w2, w3⟩ := all
   -- the window after the optional refill
   have key : ∃ nb' a', (if d.nendBits < n then decBitsFill d d.endWindow d.nendBits
@@ -154,11 +154,12 @@ theorem decBits_spec (B : List Nat) (hB : BytesOk B) (S : Nat) (e e' : Enc) (d :
 /-! ### Every operation, decoder side -/
 
 /-- A primitive range-coded operation: the decoder returns the encoded symbol and keeps the invariant. -/
-theorem decOp_prim_spec (B : List Nat) (hB : BytesOk B) (S : Nat) (e : Enc) (d : Dec) (op : Op) (ri : RunInv e)
+theorem decOp_prim_spec (B : List Nat) (hB : BytesOk B) (S : Nat) (e : Enc) (d : Dec) (op : Op) (Bt : List Nat)
+    (hag : ∀ i, 1 ≤ i → byteAt Bt S i = byteAt B S i) (hBt : ∀ i, byteAt Bt S i < 256) (ri : RunInv e)
     (hl : op.Legal) {r a b : Nat} {first : Bool} (hsub : op.sub e.rng = some (r, a, b, first))
-    (all : DecAll B S e d) (hn : (encOp e op).nbitsTotal < 4294967296) (herr : (encOp e op).error = 0)
-    (hc : Contains B S (encOp e op)) :
-    op.Matches (decOp d op).1 ∧ DecAll B S (encOp e op) (decOp d op).2 := by
+    (all : DecAll B S e d Bt) (hn : (encOp e op).nbitsTotal < 4294967296) (herr : (encOp e op).error = 0)
+    (hc : Contains Bt S (encOp e op)) :
+    op.Matches (decOp d op).1 ∧ DecAll B S (encOp e op) (decOp d op).2 Bt := by
   have hBy : ∀ i, byteAt B S i < 256 := fun i => byteAt_lt_bytesOk hB S i
   obtain ⟨inv, raw, bytes⟩ := ri
   obtain ⟨dinv, derr, dn, nb, w1, w2, w3⟩ := all
@@ -166,10 +167,10 @@ theorem decOp_prim_spec (B : List Nat) (hB : BytesOk B) (S : Nat) (e : Enc) (d :
   rw [heq] at hn herr hc ⊢
   obtain ⟨pre, _, _⟩ := encSub_spec e r a b first inv ok
   obtain ⟨_, _, n2, _, _, _, n6, _, _, n9⟩ := encNormalize_spec (encSub e r a b first) pre hn herr
-  have hc' : Contains B S (encSub e r a b first) := n2 B S hBy hc
-  obtain ⟨hm, x, hx⟩ := decOp_prim_eq B S e d op inv hl hsub dinv hc'
-  have dinv' := (decSub_spec B S e { d with ext := x } r a b first inv ok (dinv.set_ext x) hc').1
-  have dfin := decNormalize_spec B S hBy (encSub e r a b first) _ pre dinv' hn herr hc
+  have hc' : Contains Bt S (encSub e r a b first) := n2 Bt S hBt hc
+  obtain ⟨hm, x, hx⟩ := decOp_prim_eq B S e d op Bt inv hl hsub dinv hc'
+  have dinv' := (decSub_spec B S e { d with ext := x } r a b first Bt inv ok (dinv.set_ext x) hc').1
+  have dfin := decNormalize_spec B S hBy (encSub e r a b first) _ Bt hag hBt pre dinv' hn herr hc
   rw [encSub_endOffs] at n6
   rw [encSub_nendBits] at n9
   have eN : rawN (encNormalize (encSub e r a b first)) = rawN e := by unfold rawN; rw [n6, n9]
@@ -188,24 +189,25 @@ theorem sub_isSome_bitLogp (rng v logp : Nat) :
 
 /-- Every operation of the round-trip theorems: the decoder returns what was encoded and keeps
     mirroring the encoder. -/
-theorem decOp_spec (B : List Nat) (hB : BytesOk B) (S : Nat) (e : Enc) (d : Dec) (op : Op) (ri : RunInv e)
-    (hl : op.LegalAt e) (all : DecAll B S e d) (hn : (encOp e op).nbitsTotal < 4294967296)
-    (herr : (encOp e op).error = 0) (hc : Contains B S (encOp e op)) (hr : RawC B S (encOp e op)) :
-    op.Matches (decOp d op).1 ∧ DecAll B S (encOp e op) (decOp d op).2 := by
+theorem decOp_spec (B : List Nat) (hB : BytesOk B) (S : Nat) (e : Enc) (d : Dec) (op : Op) (Bt : List Nat)
+    (hag : ∀ i, 1 ≤ i → byteAt Bt S i = byteAt B S i) (hBt : ∀ i, byteAt Bt S i < 256) (ri : RunInv e)
+    (hl : op.LegalAt e) (all : DecAll B S e d Bt) (hn : (encOp e op).nbitsTotal < 4294967296)
+    (herr : (encOp e op).error = 0) (hc : Contains Bt S (encOp e op)) (hr : RawC B S (encOp e op)) :
+    op.Matches (decOp d op).1 ∧ DecAll B S (encOp e op) (decOp d op).2 Bt := by
   cases op with
-  | encode fl fh ft => exact decOp_prim_spec B hB S e d _ ri hl rfl all hn herr hc
-  | encodeBin fl fh nb => exact decOp_prim_spec B hB S e d _ ri hl rfl all hn herr hc
+  | encode fl fh ft => exact decOp_prim_spec B hB S e d _ Bt hag hBt ri hl rfl all hn herr hc
+  | encodeBin fl fh nb => exact decOp_prim_spec B hB S e d _ Bt hag hBt ri hl rfl all hn herr hc
   | bitLogp v logp =>
     obtain ⟨r, a, b, first, hsub⟩ := sub_isSome_bitLogp e.rng v logp
-    exact decOp_prim_spec B hB S e d _ ri hl hsub all hn herr hc
-  | icdf s tbl ftb => exact decOp_prim_spec B hB S e d _ ri hl rfl all hn herr hc
-  | icdf16 s tbl ftb => exact decOp_prim_spec B hB S e d _ ri hl rfl all hn herr hc
+    exact decOp_prim_spec B hB S e d _ Bt hag hBt ri hl hsub all hn herr hc
+  | icdf s tbl ftb => exact decOp_prim_spec B hB S e d _ Bt hag hBt ri hl rfl all hn herr hc
+  | icdf16 s tbl ftb => exact decOp_prim_spec B hB S e d _ Bt hag hBt ri hl rfl all hn herr hc
   | bits v n =>
     obtain ⟨l1, l2, l3⟩ := hl
     obtain ⟨g1, g2, g3, g4, g5, g6⟩ := encBits_range e v n ri l2 l3 herr
     have hval := rawC_value ri.raw ri.bytes v n l3 g5 g6 hr
     simp only [decOp, Op.Matches, encOp]
-    exact decBits_spec B hB S e _ d v n all l2 g1 g2 g3 g4 g6 hval
+    exact decBits_spec B hB S e _ d v n Bt all l2 g1 g2 g3 g4 g6 hval
   | shrink size =>
     obtain ⟨l1, l2⟩ := hl
     obtain ⟨_, g1, g2⟩ := step_shrink e size ri l1 l2 herr
@@ -239,17 +241,16 @@ theorem decOp_spec (B : List Nat) (hB : BytesOk B) (S : Nat) (e : Enc) (d : Dec)
       have s1 := step_prim e (.encode fl (fl + 1) ft') ri hleg rfl (by simp only [encOp]; omega) herr1
       simp only [encOp] at s1
       have s2 := step_bits _ _ _ s1.run (by omega) hlo herr
-      have hBy : ∀ i, byteAt B S i < 256 := fun i => byteAt_lt_bytesOk hB S i
-      have hc1 := s2.cont B S hBy hc
+      have hc1 := s2.cont Bt S hBt hc
       have hr1 := s2.rawc B S hr
-      obtain ⟨m1, a1⟩ := decOp_prim_spec B hB S e d (.encode fl (fl + 1) ft') ri hleg rfl all
+      obtain ⟨m1, a1⟩ := decOp_prim_spec B hB S e d (.encode fl (fl + 1) ft') Bt hag hBt ri hleg rfl all
         (by simp only [encOp]; omega) herr1 hc1
       simp only [decOp, Op.Matches, encOp] at m1 a1
       have hs : (decode d ft').1 = fl := by omega
       rw [hs]
       obtain ⟨g1, g2, g3, g4, g5, g6⟩ := encBits_range _ (v % 2 ^ ftb) ftb s1.run (by omega) hlo herr
       have hval := rawC_value s1.run.raw s1.run.bytes _ ftb hlo g5 g6 hr
-      obtain ⟨b1, b2⟩ := decBits_spec B hB S _ _ _ (v % 2 ^ ftb) ftb a1 (by omega) g1 g2 g3 g4 g6 hval
+      obtain ⟨b1, b2⟩ := decBits_spec B hB S _ _ _ (v % 2 ^ ftb) ftb Bt a1 (by omega) g1 g2 g3 g4 g6 hval
       rw [b1]
       have hv : u32 (fl <<< ftb) ||| v % 2 ^ ftb = v := by
         have hsh : fl <<< ftb < 4294967296 := by
@@ -265,7 +266,7 @@ theorem decOp_spec (B : List Nat) (hB : BytesOk B) (S : Nat) (e : Enc) (d : Dec)
     · rw [if_neg hb] at hn herr hc hr ⊢
       rw [if_neg hb]
       have hleg := uint_lo_legal l1 l3 hb
-      obtain ⟨m1, a1⟩ := decOp_prim_spec B hB S e d (.encode v (v + 1) (ft - 1 + 1)) ri hleg rfl all hn herr hc
+      obtain ⟨m1, a1⟩ := decOp_prim_spec B hB S e d (.encode v (v + 1) (ft - 1 + 1)) Bt hag hBt ri hleg rfl all hn herr hc
       simp only [decOp, Op.Matches, encOp] at m1 a1
       have hs : (decode d (ft - 1 + 1)).1 = v := by omega
       rw [hs]
